@@ -1,5 +1,6 @@
 CONSTANTS
   MaxT = 3
+  VerifyCallbacks = {"csvdump", "simplestats"}
   Cap = 2
   AsIs = {}
   Scenarios <- MCScen
